@@ -21,6 +21,12 @@ pub struct Tx {
     pub stride: u64,
     pub dump: u64,
     pub out: Vec<u64>,
+    /// record every `keep`-th entry only (thorough tier: the list is 35x
+    /// larger; every case is still judged by the oracle in every
+    /// configuration, the transcript is the second line of defence)
+    pub keep: u64,
+    pub entries: u64,
+    pub hash: u64,
 }
 
 impl Tx {
@@ -41,15 +47,35 @@ impl Tx {
             println!("{{\"t\":\"dumped\",\"idx\":{},\"digest\":{},\"skipped\":{}}}", self.idx, r.ctx.digest, r.ctx.skipped);
             r.trace = cfg!(miri);
         }
-        if !r.ctx.skipped {
+        if !r.ctx.skipped && self.idx % self.keep == 0 {
             self.out.push(self.idx);
             self.out.push(r.ctx.digest);
+            self.entries += 1;
+            self.hash = crate::util::hash_u64(crate::util::hash_u64(self.hash, self.idx), r.ctx.digest);
+            // no file system on wasm: stream the pairs to the host as we go
+            #[cfg(target_arch = "wasm32")]
+            if self.out.len() >= 512 {
+                self.flush_lines();
+            }
         }
     }
 }
 
+impl Tx {
+    #[cfg(target_arch = "wasm32")]
+    fn flush_lines(&mut self) {
+        let mut line = String::new();
+        for pair in self.out.chunks(2) {
+            line.push_str(&format!("{}:{},", pair[0], pair[1]));
+        }
+        println!("{{\"t\":\"tx\",\"pairs\":\"{}\"}}", line);
+        self.out.clear();
+    }
+}
+
 pub fn transcript(r: &mut Runner, stride: u64, dump: u64, path: Option<&str>) {
-    let mut tx = Tx { idx: 0, stride: stride.max(1), dump, out: Vec::new() };
+    let keep = if r.tier == Tier::Thorough { 16 } else { 1 };
+    let mut tx = Tx { idx: 0, stride: stride.max(1), dump, out: Vec::new(), keep, entries: 0, hash: 0xC09 };
     let lvl = level(r);
     // byte searches and counts
     let maxlen = if r.tier == Tier::Thorough { 200 } else { 130 };
@@ -119,26 +145,13 @@ pub fn transcript(r: &mut Runner, stride: u64, dump: u64, path: Option<&str>) {
         random_pairs(r, false, &mut run_pair);
     }
     // transcript hash + file
-    let mut h = 0xC09u64;
-    for &x in &tx.out {
-        h = crate::util::hash_u64(h, x);
-    }
-    r.rep.count("transcript_entries", (tx.out.len() / 2) as u64);
-    println!("{{\"t\":\"extra\",\"key\":\"transcript\",\"value\":{{\"shard\":{},\"config\":\"{}\",\"force\":{},\"entries\":{},\"hash\":\"{:016x}\"}}}}",
-        r.shard, r.rep.config, r.force, tx.out.len() / 2, h);
+    r.rep.count("transcript_entries", tx.entries);
+    println!("{{\"t\":\"extra\",\"key\":\"transcript\",\"value\":{{\"shard\":{},\"config\":\"{}\",\"force\":{},\"entries\":{},\"every\":{},\"hash\":\"{:016x}\"}}}}",
+        r.shard, r.rep.config, r.force, tx.entries, tx.keep, tx.hash);
     #[cfg(target_arch = "wasm32")]
     {
-        // no file system: the transcript itself goes to the host as lines
         let _ = path;
-        let mut line = String::new();
-        for (k, pair) in tx.out.chunks(2).enumerate() {
-            line.push_str(&format!("{}:{},", pair[0], pair[1]));
-            if k % 256 == 255 {
-                println!("{{\"t\":\"tx\",\"pairs\":\"{}\"}}", line);
-                line.clear();
-            }
-        }
-        println!("{{\"t\":\"tx\",\"pairs\":\"{}\"}}", line);
+        tx.flush_lines();
     }
     #[cfg(not(target_arch = "wasm32"))]
     if let Some(p) = path {
